@@ -154,6 +154,12 @@ func (e *Executor) RunTask(ctx context.Context, call *Call) error {
 	return e.startExecution(ctx, t, func(ctx context.Context) error {
 		e.Logger.VerboseErrf(logger.Magenta, "task: %q started\n", call.Task)
 		if err := e.runDeps(ctx, t); err != nil {
+			// A failed (or cancelled) command in a dependency fails the task
+			// named on the command line like a failure of its own commands.
+			_, isExitError := interp.IsExitStatus(err)
+			if !call.Indirect && (isExitError || errors.Is(err, context.Canceled)) {
+				return &errors.TaskRunError{TaskName: t.Task, Err: err}
+			}
 			return err
 		}
 
